@@ -33,7 +33,7 @@ ASSUMPTIONS = ["GENCLS is the classical model E' behind x'd with constant mechan
                "orders are estimated from successive halvings on the finer step pairs: trapezoid in [1.6, 2.4], backward Euler in [0.75, 1.3] (the 1 % accuracy clause is applied to the trapezoidal rule; backward Euler is first order and numerically damped)",
                "multi-machine benchmark: loads are constant admittances fixed at the power-flow voltage, machines are E' behind ra + j x'd on their own base, the electrical torque equals the air-gap power; the h-independent error left by ANDES' 1e-4 s event resolution is measured with a second reference integration that applies the same impulse",
                "small-signal kicks are applied on the step that leaves a scheduled (zero-amount) event, where ANDES itself inserts 1e-4 s steps"]
-REQUIRED_OBS = {"smib_runs": 8, "order_estimates": 8, "smallsignal_runs": 4, "mm_runs": 8}
+REQUIRED_OBS = {"smib_runs": 8, "order_estimates": 8, "smallsignal_runs": 4, "mm_runs": 8, "mm_branches_switched_in": 1}
 
 SS_CASES = ["kundur/kundur_full.xlsx", "wecc/wecc_gencls.xlsx", "5bus/pjm5bus.xlsx", "kundur/kundur_sexs.xlsx", "ieee14/ieee14_full.xlsx",
             "ieee39/ieee39_full.xlsx"]
